@@ -645,7 +645,8 @@ impl World {
                     CodeKind::Partial { reply, sudo, migrate } => (partial_tag(*reply, *sudo, *migrate), false, None, (*reply, *sudo, *migrate)),
                 };
                 let expected: Result<u64, ()> = match id {
-                    None => Ok(self.model.next_code_id()),
+                    // no identifier left after u64::MAX: store_code panics by design, duplicate_code fails
+                    None => self.model.next_code_id().ok_or(()),
                     Some(0) => Err(()),
                     Some(i) if self.model.codes.contains_key(i) => Err(()),
                     Some(i) => Ok(*i),
@@ -660,6 +661,7 @@ impl World {
                 }
                 rep.bump(&format!("e1/registry/store_code/{}", match (id, &expected) { (None, _) => "auto", (Some(_), Ok(_)) => "chosen", (Some(_), Err(_)) => "rejected" }));
                 match (got, expected) {
+                    (Err(p), Err(())) if id.is_none() && p.contains("code id") => rep.bump("e1/registry/store_code/no-identifier-left"),
                     (Err(p), _) => discs.push(Disc { props: vec!["C11"], sig: "store-code-panics".into(), detail: p }),
                     (Ok(Ok(g)), Ok(e)) => {
                         if g != e {
@@ -675,7 +677,7 @@ impl World {
                 (discs, None)
             }
             Top::DuplicateCode { id } => {
-                let expected = if *id != 0 && self.model.codes.contains_key(id) { Some(self.model.next_code_id()) } else { None };
+                let expected = if *id != 0 && self.model.codes.contains_key(id) { self.model.next_code_id() } else { None };
                 let got = catch(|| self.app.duplicate_code(*id).map_err(|e| e.to_string()));
                 if let Some(t) = self.transcript.as_mut() {
                     t.push(format!("duplicate_code {:?}", got));
@@ -852,6 +854,20 @@ impl World {
                     discs.push(dd);
                 }
 
+                // where a reply is missing, surplus or was handed something else, the response composed from "each
+                // sub-message followed by its reply" is C04's subject as well, if it demonstrably differs
+                if diverged {
+                    if let (Ok(rs), Ok(es)) = (&got, &expected) {
+                        let reply_related = discs.last().map_or(false, |d| d.sig.contains("reply"));
+                        let helper = matches!(op, Top::Exec { via: ExecVia::Helper, .. });
+                        if reply_related && !helper && rs.len() == es.len() {
+                            if let Some((i, r, e)) = rs.iter().zip(es.iter()).enumerate().map(|(i, (r, e))| (i, r, e)).find(|(_, r, e)| r.events != e.events || r.data.as_ref().map(|d| d.to_vec()) != e.data) {
+                                rep.bump("e1/responses/compared_after_reply_divergence");
+                                discs.push(Disc { props: vec!["C04"], sig: "response-differs-where-replies-differ".into(), detail: format!("message #{}: expected [{}] data {:?}, observed [{}] data {:?}", i, events_str(&e.events), e.data.as_ref().map(|d| hex(d)), events_str(&r.events), r.data.as_ref().map(|d| hex(d))) });
+                            }
+                        }
+                    }
+                }
                 // ---- outcome and responses (judged only while model and implementation are in step) ----
                 if !diverged {
                     match (&got, &expected) {
